@@ -88,30 +88,43 @@ BIND_TYPE = 'zz_b'
 PRELUDE = (['get_registry'], ['bind', FACTORY_ID, 'zz_f'])
 
 
-def enabled(ref, client_ids=CLIENT_IDS, server_ids=SERVER_IDS, types=TYPES, with_foreign=True):
-    """The well-formed events enabled in reference state `ref` (simplest first)."""
+def enabled(ref, client_ids=CLIENT_IDS, server_ids=SERVER_IDS, types=TYPES, with_foreign=True, late_registry=False):
+    """The well-formed events enabled in reference state `ref` (simplest first).
+    late_registry: histories without the fixed prelude, in which get_registry is an
+    ordinary event (possible whenever id 2 is free) and id 2 is an ordinary client id."""
     evs = []
-    known = [i for i in sorted(ref.objs) if i not in (1, REGISTRY_ID, FACTORY_ID)]
+    has_registry = ref.live(REGISTRY_ID) and ref.latest(REGISTRY_ID).type == 'wl_registry'
+    has_factory = ref.live(FACTORY_ID) and ref.latest(FACTORY_ID).type == 'zz_f'
+    fixed = (1, FACTORY_ID) if late_registry else (1, REGISTRY_ID, FACTORY_ID)
+    known = [i for i in sorted(ref.objs) if i not in fixed and not (i == REGISTRY_ID and has_registry)]
     for i in known:
         evs.append(['use', i])
+    if late_registry and not ref.live(REGISTRY_ID):
+        evs.append(['get_registry'])
+    if late_registry and has_registry and not ref.live(FACTORY_ID):
+        evs.append(['bind', FACTORY_ID, 'zz_f'])
     for i in client_ids:
         if not ref.live(i):
             for t in types:
-                evs.append(['creq', i, t])
+                if t == 'wl_callback' or has_factory:
+                    evs.append(['creq', i, t])
     for i in client_ids:
-        if ref.live(i):
+        if ref.live(i) and not (i == REGISTRY_ID and has_registry):
             evs.append(['del', i])
-    for i in server_ids:
-        for t in types:
-            evs.append(['cev', i, t])
-    for i in client_ids:
-        if not ref.live(i):
-            evs.append(['bind', i, BIND_TYPE])
-    for i in known:
-        evs.append(['ment', i])
-    if with_foreign:
+    if has_factory:
+        for i in server_ids:
+            for t in types:
+                evs.append(['cev', i, t])
+    if has_registry:
+        for i in client_ids:
+            if not ref.live(i):
+                evs.append(['bind', i, BIND_TYPE])
+    if has_factory:
         for i in known:
-            evs.append(['foreign', i])
+            evs.append(['ment', i])
+        if with_foreign:
+            for i in known:
+                evs.append(['foreign', i])
     return evs
 
 
